@@ -9,11 +9,17 @@ SPEC = {
         'C32_block_kinds_consecutive', 'C32_getPushData_exact', 'C32_getPushData_no_panic',
         'C32_oversize_block_stalls', 'C32_recorded_monotone', 'C32_fix_no_skip', 'C32_fix_progress',
         'C32_deliverable_block_posted',
+        'C32_single_task_per_subscriber_refuted', 'C32_single_task_per_subscriber_partial',
+        'C32_reg_acked_contiguous_increasing_refuted', 'C32_reg_acked_contiguous_increasing_partial',
+        'C32_reg_recorded_le_acked_partial',
+        'C32_reg_recorded_monotone_refuted', 'C32_reg_recorded_monotone_partial',
+        'C32_reg_recorded_only_after_ack', 'C32_second_task_replays', 'C32_fix2_guard', 'C32_fix2_single_task_and_order',
+        'C32_error_exit_blocks_close', 'C32_close_twice_panics',
     ],
     'allowed_axioms': [],
     'shard': 70,
     'check_preamble': 'Open Scope Z_scope.\n',
-    'rule': 'two case kinds. CGpd: one call of getPushData(type, start, count, maxSize) on a generated sequence store '
+    'rule': 'four case kinds (CReg and CRace at the end). CGpd: one call of getPushData(type, start, count, maxSize) on a generated sequence store '
             '(1-9 entries; block sizes 0-6 with limits 0-14, real header / per-block receipt sizes with the limit placed at a '
             'window sum -1/0/+1/+2; starts and counts also out of range; count 0 = index panic); non-trivial = error, panic, nil data '
             'or a payload shorter than the count. CHist: one history of the real Push task over in-memory stores and a scripted '
@@ -24,14 +30,42 @@ SPEC = {
             'payload length); batches of 10 / 100; postFail2Sleep 1 (2-3 in the sleepN stream with waits for the counter). The task '
             'goroutine is held at LoadBlockLastSequence / PostData while the script acts, so the trace is the real event order. '
             'non-trivial = a failed post was later retried successfully, or a deactivation was followed by a re-registration; '
-            'distinct = distinct Gallina case terms',
+            'distinct = distinct Gallina case terms. '
+            'CReg: one history of SEVERAL task goroutines of one name on the real Push: every goroutine runTask spawns is identified '
+            '(goroutine id, numbered in spawn order) and held at its first store read (getLastPushSeq), at every LoadBlockLastSequence, '
+            'at every PostData, at the "exceed 3 times" log call (status notRunning written, entry not yet deleted; through a log15 '
+            'handler) and at the record store of its deactivation; a first registration can be held at its record store; exactly one '
+            'goroutine is released at a time by a seeded scheduler, so the trace is the real step order. Streams: reg-guarded '
+            '(registrations only outside start-up/shutdown windows: any spec failure is a violation), reg-overlap (registrations '
+            'preferably inside a start-up window, also right after the first registration: 2-6 goroutines), reg-deactwin '
+            '(registration while the failing goroutine sits between status=notRunning and delete(tasks), then a second one), '
+            'reg-addtask (second first registration while the first is held at its record store), with growth, failures '
+            '(deactivation only by a goroutine that is alone on its pushNotify), probes, a LoadBlockLastSequence error before Close '
+            '(Close then hangs), Close (goroutines leave one by one, observed through the "push task closed" log), second Close '
+            '(panic). Types block/header/receipt/result/EVM (orphan shapes: block kinds). non-trivial = at least two goroutines and two '
+            'acknowledged posts. CRace: free-running (nothing held): 20 names per Push, each registered with a resume point and '
+            'registered again twice at once (fresh), or deactivated by a dead endpoint (three real failures, 1 s apart) and registered '
+            'again twice (deact); one case per name with what its endpoint received; non-trivial = at least two goroutines did a '
+            'start-up read',
     'trusted_base': [
         'SequenceStore / CommonStore are in-memory doubles with BlockStore\'s conventions (append-only sequence log, GetKey -> '
         'ErrNotFoundInDb, List -> ErrNotFound when empty); blockstore.go\'s own storage of the sequence log is not exercised here',
         'goroutines, channels and timers are abstracted to the event alphabet (ESeq l | ETick | EPostOk | EPostFail | EResume | '
         'EClose | ERestart); the theorems quantify over all event sequences, the harness samples real schedules',
-        'one task goroutine per subscriber: the windows in which addSubscriber can start a second goroutine for the same name '
-        '(status still notRunning at task start, or between status=notRunning and delete(tasks) at deactivation) are not modelled',
+        'Model.v (C32_acked_… / C32_recorded_… without _reg_) is ONE task goroutine whose start is atomic; ModelReg.v is the transition '
+        'system over several goroutines of one name with the start-up steps (spawn, last-seq read, status write), the shutdown steps '
+        '(status notRunning, delete(tasks), record store), check2ResumePush as one step (it holds push.mu), setActive, the steps of a '
+        'second concurrent first registration, Close / exit / restart; in it the notification queue is not a state component (a '
+        'notification may be taken at any time: a superset of the real schedules), so the blocking send of updateLastSeq on a full '
+        'queue while push.mu is held (liveness) is not modelled; setActive is one step (its read-then-write against the deactivation '
+        'record store only affects the stored status); subscribers of different names are independent (separate keys, separate '
+        'pushNotify objects) and are modelled one name at a time',
+        'CRace cases: the scheduler decides how many goroutines start, so the model side is per goroutine (its own posts are the '
+        'batches of process from a start position >= the resume point up to the end of the log) plus the spec oracle on the merged '
+        'arrival order; the goroutine of a post is the Go goroutine id seen by the PostService',
+        'the harness holds goroutines through the store / PostService doubles and a log15 handler (no /repo change); a goroutine held '
+        'at LoadBlockLastSequence has already done its sleep test, the model does it in the same step (no observable difference '
+        'with postFail2Sleep = 1, which these streams use)',
         'a process crash between PostData returning nil and setLastPushSeq (redelivery after restart) is not modelled; '
         'ERestart is an orderly restart after Close',
         'per-entry sizes and "has matching transaction" flags are inputs of the model: for header and receipt pushes the harness '
@@ -50,17 +84,30 @@ SPEC = {
         'task that starts with nothing stored (re-taken when such a task is restarted before anything was acknowledged)',
     ],
     'manifest': {
-        'level_text': 'full for every push type (block, header, tx receipt, tx result, EVM event), every sequence store and '
+        'level_text': 'PARTIAL since the registration / start-up extension: on the transition system over several goroutines of one '
+                      'name (ModelReg.v) "one task per subscriber", gap-free increasing delivery and a monotone stored sequence are '
+                      'REFUTED for the unchanged code (C32_single_task_per_subscriber_refuted, C32_reg_acked_…_refuted, '
+                      'C32_reg_recorded_monotone_refuted; open finding C32-F2, reproduced deterministically and free-running) and '
+                      'PROVED under the boolean guard "no check2ResumePush of the name while one of its goroutines is in a start-up '
+                      'window (spawned, status not yet written) or shutdown window (status notRunning written, entry not yet '
+                      'deleted), and no second concurrent first registration" (…_partial, all interleavings of registration, '
+                      'start-up, rounds, answers, shutdown, close, restart steps); C32_second_task_replays gives the consequence '
+                      'of a second goroutine for every state (the same batch twice); the second sentence of the property ("recorded '
+                      'only after acknowledged") is proved WITHOUT the guard (C32_reg_recorded_only_after_ack); with the candidate repair fix2.diff the guard '
+                      'shrinks to "no second concurrent first registration" (C32_fix2_*). Within one task goroutine (Model.v) the '
+                      'statement is full for every push type (block, header, tx receipt, tx result, EVM event), every sequence store and '
                       'size limit: the acknowledged list is exactly the deliverable sequence numbers after the resume point, '
                       'increasing, and the stored last push sequence is the registration value or covered by acknowledgements, '
-                      'over all event sequences incl. failures, sleeps, deactivation, re-registration, restart; no guard '
+                      'over all event sequences incl. failures, sleeps, deactivation, re-registration, restart '
                       '(finding C32-F1, skipped but counted at totalSize+size == maxSize in getTxReceipts/getEVMEvent, is '
                       'fixed in /repo: the loop breaks on >=). Liveness remark proved and reproduced, not part of the '
                       'property: a deliverable block whose message is not smaller than the limit is never passed by a '
                       'receipt-type subscriber (push_test.go Test_PostEVMEvent_bigsize pins this); below the limit the next '
                       'round posts it',
         'level_note': 'event-alphabet abstraction of goroutines/timers; in-memory store doubles; sizes are model inputs; '
-                      'double-goroutine start windows and crash between post and record not modelled',
+                      'notification queue abstracted (any goroutine may take a round at any time); crash between post and record '
+                      'not modelled; Close remarks (error exit without Done blocks Close for ever, second Close panics, an orphaned '
+                      'goroutine blocks Close) proved on the model and observed on the real Push, not part of the property',
         'technique': 'Coq proof (invariant by induction over event sequences, loop lemmas for getPushData) + in-kernel '
                      'correspondence check of observed traces of the real Push task',
     },
